@@ -10,7 +10,7 @@ from fractions import Fraction
 
 import numpy as np
 
-from harness import common, tlegen
+from harness import common, tlegen, numeric
 
 LEVEL = "proof"
 TOL_HORIZON = 1e-4      # deg, elevation at rise/fall
@@ -388,7 +388,13 @@ def run(ctx):
         "completeness is claimed by the property only for above-horizon intervals > 60 s that begin after the start and end >= 1 min "
         "before the end of the window; the oracle applies exactly these exemptions, with one scan step of safety margin",
     ]
+    src, _names = numeric.regen_ast(ctx, "passes", "the control skeleton of Orbital.get_next_passes (compared, constants masked, with "
+                                    "translator/passes_skeleton.txt) and its numeric constants; the root finder, the culmination optimiser "
+                                    "and get_observer_look stay oracles of the hand model",
+                                    optional=True)
     ctx.build_props("props/C03.v")
+    if src is not None:
+        ctx.build_props("props/C03_source.v")
     rng = ctx.rng
     cases = fixed_cases() + derive_cases(rng, ctx, n_random=ctx.n(16, 90), n_over=ctx.n(10, 50), n_graze=ctx.n(10, 50),
                                          n_edge=ctx.n(10, 50), n_zero=ctx.n(8, 50))
